@@ -114,9 +114,10 @@ impl RevocationBitmap {
     // This fix checks if the encoded string it receives as input has undergone such process
     // and undo the inner Base64 encoding before processing the input further.
     let mut data = Cow::Borrowed(data.as_ref());
-    // Only the first two characters are determined by the zlib header (0x78 0x9c); the third one also depends on the
-    // first bits of the deflate stream and is not always `y`. The doubly encoded form starts with `ZUp`.
-    if !data.starts_with("eJ") {
+    // The doubly encoded form is the Base64 encoding of a Base64Url string that starts with `eJ` (zlib header 0x78
+    // 0x9c of the default compression level the old encoder used): it starts with `ZUp`. Everything else is the current
+    // form, whatever its zlib header (other encoders may compress at another level: `eAE..`, `eNq..`).
+    if data.starts_with("ZUp") {
       // Base64 encoded zlib default compression header.
       // The `;base64` payload of a data url is padded; `Base::Base64` expects the unpadded form.
       let decoded = BaseEncoding::decode(data.trim_end_matches('='), Base::Base64)
